@@ -36,10 +36,10 @@ CHECKS = {
          "Every sequence of <= 4 (quick) / <= 5 (thorough, 6-7 strided) lines over a 21-form alphabet x all 8 -D subsets, every expression token string up to length 5/7 x 8 valuations, two-file leak sets, and constructively generated balanced files (nesting <= 5, CRLF, indentation, comments, diagnostics with positions) are interpreted by an independent reference; selected probes, their rows/columns and the presence of E002 must agree.",
          "trusts the reference interpreter written from the statement and the documented expression grammar; with several malformed lines only one E002 on such a line is required",
          "DESIGN.md section 5, C06"),
- "C09": ("proptest programs x layouts; expected spans = token positions recorded by the printer; model-free regression family",
+ "C09": ("proptest programs x layouts; expected spans = token positions recorded by the printer; injected rule violations with the reference rule checker naming the offending element; synthetic diagnostics over every element span re-parsed against a cell-by-cell snippet reference; model-free regression family",
          "exploration",
-         "The printer records the character position of every token and the token range of every element; after an error-free compile every span reachable through the public API (elements, identifiers, tags, values, attributes, type expressions, doc-comment parts) must be inside its file, ordered and tight in the sense of the statement, under layouts with tabs, CRLF and multi-byte characters.",
-         "trusts the printer's own position bookkeeping (characters, '\\n' as the only line break); lenient on escaped-identifier start, attribute inclusion in type spans and the exact end token, as listed in the evidence assumptions; diagnostics' spans for injected violations and snippet rendering are covered by C14/C03 partially (see DESIGN)",
+         "The printer records the character position of every token and the token range of every element; after an error-free compile every span reachable through the public API (elements, identifiers, tags, values, attributes, type expressions, doc-comment parts) must be inside its file, ordered and tight in the sense of the statement, under layouts with tabs, CRLF and multi-byte characters. For programs with injected rule violations every diagnostic and note span must be inside its file and every error must lie inside the text of an element the reference rule checker names for that code. Every element span, joined spans and zero-width positions are rendered by the real emitter and the snippet (line numbers, tab-expanded lines, underline cells) must match the reference.",
+         "trusts the printer's own position bookkeeping (characters, '\\n' as the only line break); lenient on escaped-identifier start, attribute inclusion in type spans and the exact end token, as listed in the evidence assumptions; for duplicate-type rules every member of the duplicate group counts as offending; lint diagnostics of doc comments are located by C16's families, not here",
          "DESIGN.md section 5, C09"),
  "C20": ("proptest programs; recording Visitor vs. traversal order derived from the abstract program",
          "exploration",
